@@ -102,6 +102,12 @@ CHECKS.update({
         note='Trusted: symnp engine (hash tokens by entailment), z3. Array weightings compare by identity of the array (documented). One known finding (ProductSpace.__getitem__ drops the weighting).',
         ref='DESIGN.md section 4 C20'),
 })
+CHECKS.update({
+    'C15': dict(
+        text='space.element(callable) is executed (sampling_function, _make_dual_use_func, point_collocation, the vectorize decorator over a re-stated numpy.vectorize) with an uninterpreted function h in every calling convention (natively vectorised, decorator with/without otypes, one coordinate only, in-place, dual-use, constant, complex, evaluated before sampling); every entry must be h(grid point) -- decided by congruence for every h. nearest/linear/per-axis interpolators run on symbolic node values and symbolic evaluation points (1-3d, non-uniform concrete coordinate vectors; the cell search forks): equal to closest node (right on ties) / multilinear blend on every cell, node reproduction, exactness on affine data, documented extension outside the hull, single point = point array = mesh = out=; narrower value dtypes with concrete float64 points at and next to ties (points must not be rounded); Resampling (1-3d, per-axis mixes) and linear_deform / LinDeformFixedDisp against the same reference.',
+        note='Trusted: symnp engine, z3, the re-statement of numpy.vectorize (element-wise application by numpy.frompyfunc, output type from otypes or the first output, C truncation as an axiomatised integer application). Coordinates of the grids are concrete; float rounding of the arithmetic is outside (reals).',
+        ref='DESIGN.md section 4 C15'),
+})
 NOT_YET = {}
 
 
